@@ -5,6 +5,16 @@ HERE = os.path.dirname(os.path.dirname(os.path.abspath(__file__)))
 
 # id -> (monitor, level, technique, level text, level note, design ref)
 CHECKS = {
+ "C13": ("svcmon", "exploration",
+         "runtime monitor: Go race detector on the real server under concurrent clients and hook delays + per-request oracle + event-log interleaving coverage",
+         "A -race -tags verif build of the server is driven by rounds of 2..16 clients released together, under three hook-delay profiles that widen the read/decode/prove/write windows; requests include equal-length valid bodies and bodies arriving in two TCP segments. Every response is judged by its own request's oracle (proof verifies for THIS hash; deterministic error bodies equal the response the same request gets alone) and the race log must be empty. Evidence reports client/server-side overlap and distinct interleaving signatures. Held on the schedules produced.",
+         "Schedules are those the OS and the delay profiles produced; the race detector only sees executed accesses.",
+         "DESIGN.md §C13"),
+ "C14": ("svcmon", "exploration",
+         "runtime monitor: start/stop cycles in a worker process and on the real CLI with requests confirmed in flight by the gauge and held by hook delays; completion/rebind/exit-status/deadlock oracles",
+         "(A) server.Run/RequestStop/AwaitStop cycles on the same two addresses in a child worker (a panic or deadlock ends only the worker and is reported with its stack): stop immediately (start delayed by hooks), after ports answer, with 1-4 requests confirmed in flight at chosen handler stages, after completion, a long hold of 8 s (35 s thorough) past the stop, rapid restarts; (B) `gnark-mbu start` + SIGINT with the same in-flight timings. Every in-flight client must get its specified response, addresses must bind immediately, exit status 0. Held on the cycles run.",
+         "SIGINT before the handler is installed is out of scope; watchdog >= 120 s turns into a violation only for AwaitStop/exit.",
+         "DESIGN.md §C14"),
  "C09": ("svcmon", "exploration",
          "runtime monitor: hostile request history against a real server child, per-request status/code/proof oracle, liveness probe, crash-mark scan",
          "One long PRNG history per mode on one `gnark-mbu start` instance: non-POST methods, ~16 kinds of malformed bodies incl. body-read failures produced on the wire, wrong shapes (each array +-1/empty/10^4), every invalid batch class, wrong hashes, valid batches in four number styles. Every 200 body is verified as a Groth16 proof for the request's own hash with the vk held by the monitor; after every request a probe must be answered and stderr is scanned. Held on the requests sent.",
